@@ -104,9 +104,14 @@ def form_name(original_form: ufl.form.Form, form_id: int, prefix: str) -> str:
 
 
 def expression_name(
-    expression: tuple[ufl.core.expr.Expr, npt.NDArray[np.floating]], prefix: str
+    expression: tuple[ufl.core.expr.Expr, npt.NDArray[np.floating]], expression_id: int, prefix: str
 ) -> str:
-    """Get expression name."""
+    """Get expression name.
+
+    The position of the expression in the list of compiled expressions is
+    part of the name (as for forms), since two expressions that differ only
+    in the numbering of their coefficients have the same signature.
+    """
     assert isinstance(expression[0], ufl.core.expr.Expr)
-    sig = compute_signature([expression], prefix)
+    sig = compute_signature([expression], str((prefix, expression_id)))
     return f"expression_{sig}"
